@@ -37,6 +37,13 @@ type G struct {
 	left   int
 	ellN   int
 	ellIDs []int
+	// what this tree already holds, for draws that stand in a relation to an earlier part (equal or neighbouring
+	// lengths, a string that is a prefix / suffix / case variant of another, a value equal to a count or an index,
+	// the same sub-structure at two places, a name that extends another)
+	relLens []int
+	relStrs [][]byte
+	relSubs []*ref.Item
+	relVals map[ref.Kind][]ref.Slot
 }
 
 func New(r *rng.R, p Profile) *G {
@@ -74,6 +81,30 @@ func (g *G) VarName() string {
 				alt = strings.ToLower(n)
 			}
 			if alt != n && !g.used[alt] && !IsKeyword(strings.SplitN(alt, "[", 2)[0]) && !strings.Contains(alt, "[") {
+				g.used[alt] = true
+				g.order = append(g.order, alt)
+				return alt
+			}
+		}
+	}
+	// sometimes a name that extends or shortens an existing one (x / x1 / x_ ; prefixes of one another)
+	if len(g.order) > 0 && g.R.Chance(1, 14) {
+		n := g.order[g.R.Intn(len(g.order))]
+		if !strings.Contains(n, "[") {
+			alt := n
+			switch g.R.Intn(4) {
+			case 0:
+				alt = n + string("0123456789"[g.R.Intn(10)])
+			case 1:
+				alt = n + "_"
+			case 2:
+				alt = n + n
+			default:
+				if len(n) > 1 {
+					alt = n[:len(n)-1]
+				}
+			}
+			if alt != n && !g.used[alt] && !IsKeyword(alt) && ref.VarNameOK(alt) {
 				g.used[alt] = true
 				g.order = append(g.order, alt)
 				return alt
@@ -132,6 +163,7 @@ func (g *G) Tree() *ref.Item {
 	g.order = nil
 	g.left = g.P.Budget
 	g.ellN = 0
+	g.relLens, g.relStrs, g.relSubs, g.relVals = nil, nil, nil, map[ref.Kind][]ref.Slot{}
 	it := g.item(0, true)
 	if g.P.Ellipsis {
 		g.nameEllipses(it)
@@ -141,6 +173,20 @@ func (g *G) Tree() *ref.Item {
 
 // ScalarTree draws a tree whose root is never a list (for item-level checks).
 func (g *G) length(max int, width int) int {
+	n := g.length0(max, width)
+	if len(g.relLens) > 0 && g.R.Chance(1, 14) {
+		m := g.relLens[g.R.Intn(len(g.relLens))] + g.R.Intn(3) - 1
+		if m >= 0 && m*width <= g.left && m <= 300 {
+			n = m
+		}
+	}
+	if len(g.relLens) < 64 {
+		g.relLens = append(g.relLens, n)
+	}
+	return n
+}
+
+func (g *G) length0(max int, width int) int {
 	if g.P.Boundary && g.R.Chance(1, 12) {
 		n := g.R.PickInt(BoundaryLens)
 		if g.R.Chance(1, 3) {
@@ -187,6 +233,15 @@ func (g *G) list(depth int) *ref.Item {
 			it.Children = append(it.Children, &ref.Item{Var: g.VarName()})
 			continue
 		}
+		if len(g.relSubs) > 0 && g.R.Chance(1, 12) {
+			// the same sub-structure once more (as a sibling, or at another depth)
+			c := g.relSubs[g.R.Intn(len(g.relSubs))]
+			if sz := relSize(c); sz <= g.left {
+				g.left -= sz
+				it.Children = append(it.Children, relCopy(c))
+				continue
+			}
+		}
 		if n > 64 {
 			// wide lists: cheap children
 			it.Children = append(it.Children, g.Scalar(ref.Kind(1+g.R.Intn(int(ref.NKinds)-1))))
@@ -197,7 +252,51 @@ func (g *G) list(depth int) *ref.Item {
 	if ellAt == n {
 		it.Children = append(it.Children, &ref.Item{Var: "..."})
 	}
+	g.remember(it)
 	return it
+}
+
+// remember keeps small variable-free subtrees for later structural repeats.
+func (g *G) remember(it *ref.Item) {
+	if len(g.relSubs) < 32 && relFree(it) && relSize(it) <= 96 {
+		g.relSubs = append(g.relSubs, it)
+	}
+}
+
+func relFree(it *ref.Item) bool {
+	if it.Var != "" || it.AVar != "" {
+		return false
+	}
+	for _, s := range it.Slots {
+		if s.Var != "" {
+			return false
+		}
+	}
+	for _, c := range it.Children {
+		if !relFree(c) {
+			return false
+		}
+	}
+	return true
+}
+
+func relSize(it *ref.Item) int {
+	n := 2 + len(it.Str) + len(it.Slots)*it.Kind.Width()
+	for _, c := range it.Children {
+		n += relSize(c)
+	}
+	return n
+}
+
+func relCopy(it *ref.Item) *ref.Item {
+	c := *it
+	c.Str = append([]byte(nil), it.Str...)
+	c.Slots = append([]ref.Slot(nil), it.Slots...)
+	c.Children = nil
+	for _, k := range it.Children {
+		c.Children = append(c.Children, relCopy(k))
+	}
+	return &c
 }
 
 // nameEllipses gives the ellipses of a tree distinct names.
@@ -282,6 +381,42 @@ func (g *G) Scalar(k ref.Kind) *ref.Item {
 		}
 		g.left -= n
 		it.Str = g.ASCII(n)
+		if len(g.relStrs) > 0 && g.R.Chance(1, 10) {
+			// a string that stands in a relation to an earlier one of this tree
+			p := g.relStrs[g.R.Intn(len(g.relStrs))]
+			var q []byte
+			switch g.R.Intn(7) {
+			case 0:
+				q = append(q, p...) // the same
+			case 1:
+				q = append(q, p[:g.R.Intn(len(p)+1)]...) // a prefix
+			case 2:
+				q = append(q, p[g.R.Intn(len(p)+1):]...) // a suffix
+			case 3:
+				q = append(append(q, p...), byte(g.R.Intn(128))) // one longer
+			case 4:
+				q = append(append(q, p...), p...) // doubled
+			case 5:
+				for _, c := range p { // letter case swapped
+					if c >= 'a' && c <= 'z' || c >= 'A' && c <= 'Z' {
+						c ^= 0x20
+					}
+					q = append(q, c)
+				}
+			default:
+				for i := len(p) - 1; i >= 0; i-- { // reversed
+					q = append(q, p[i])
+				}
+			}
+			if len(q)-n <= g.left {
+				g.left -= len(q) - n
+				it.Str = q
+			}
+		}
+		if len(g.relStrs) < 32 && len(it.Str) <= 200 {
+			g.relStrs = append(g.relStrs, it.Str)
+		}
+		g.remember(it)
 		return it
 	}
 	n := g.length(g.P.MaxElems, w)
@@ -301,7 +436,77 @@ func (g *G) Scalar(k ref.Kind) *ref.Item {
 		}
 		it.Slots[i] = g.Value(k)
 	}
+	if n > 0 && g.R.Chance(1, 12) {
+		g.relate(it, k)
+	}
+	if g.relVals == nil {
+		g.relVals = map[ref.Kind][]ref.Slot{}
+	}
+	if prev := g.relVals[k]; len(prev) < 64 {
+		for _, s := range it.Slots {
+			if s.Var == "" && len(prev) < 64 {
+				prev = append(prev, s)
+			}
+		}
+		g.relVals[k] = prev
+	}
+	g.remember(it)
 	return it
+}
+
+// relate rewrites the literal values of an array so that they stand in a relation to something else of the same
+// input: the element count, the element's own index, the first element, or values an earlier item of this kind holds.
+func (g *G) relate(it *ref.Item, k ref.Kind) {
+	n := len(it.Slots)
+	small := func(v int) (ref.Slot, bool) {
+		switch {
+		case k == ref.BOOLEAN:
+			return ref.Slot{Uint: uint64(v & 1)}, true
+		case k == ref.B || k.IsUint():
+			if uint64(v) <= UintMax(k.Width()) {
+				return ref.Slot{Uint: uint64(v)}, true
+			}
+		case k.IsInt():
+			if _, hi := IntBounds(k.Width()); int64(v) <= hi {
+				return ref.Slot{Int: int64(v)}, true
+			}
+		}
+		return ref.Slot{}, false
+	}
+	mode := g.R.Intn(5)
+	var first *ref.Slot
+	for i := range it.Slots {
+		s := &it.Slots[i]
+		if s.Var != "" {
+			continue
+		}
+		switch mode {
+		case 0: // every value is the element count
+			if v, ok := small(n); ok {
+				*s = v
+			}
+		case 1: // every value is its own index
+			if v, ok := small(i); ok {
+				*s = v
+			}
+		case 2: // every value equals the first
+			if first == nil {
+				first = s
+			} else {
+				*s = *first
+			}
+		case 3: // the values of an earlier item of this kind, in order
+			if prev := g.relVals[k]; i < len(prev) {
+				*s = prev[i]
+			}
+		default: // one value is the count of what the tree holds so far
+			if i == 0 {
+				if v, ok := small(len(g.relLens)); ok {
+					*s = v
+				}
+			}
+		}
+	}
 }
 
 const hostileASCII = "\"\\ /\t\n\r\x00\x7f'<>.[]"
